@@ -329,46 +329,31 @@ def _isnumpy_table(rep, m, rid="C10.R6"):
     from .. import booleval
 
     fn = m.method("_ValueGenerator", "IsNumpy")
-    leaves = []
-
-    def collect(x):
-        if isinstance(x, ast.BoolOp):
-            for v in x.values:
-                collect(v)
-        elif isinstance(x, ast.UnaryOp) and isinstance(x.op, ast.Not):
-            collect(x.operand)
-        elif isinstance(x, ast.IfExp):
-            collect(x.test), collect(x.body), collect(x.orelse)
-        elif isinstance(x, (ast.Compare, ast.Call, ast.Attribute, ast.Name, ast.Subscript)):
-            k = ast.unparse(x).replace(" ", "")
-            if k not in leaves:
-                leaves.append(k)
-                nodes[k] = x
-
-    nodes = {}
-    for st in own_statements(fn.node):
-        if isinstance(st, ast.If):
-            collect(st.test)
-        elif isinstance(st, ast.Return) and st.value is not None:
-            collect(st.value)
-        elif isinstance(st, ast.Assign) and not (isinstance(st.value, (ast.Attribute, ast.Tuple, ast.Name))):
-            collect(st.value)
-    res = Resolver(m, fn)
-    NDARRAY = (("attr", ("name", "numpy"), "ndarray"), ("name", "ndarray"), ("attr", ("name", "np"), "ndarray"))
-    nd, sides = [], set()
-    for k in leaves:
-        x = nodes[k]
-        if isinstance(x, ast.Call) and isinstance(x.func, ast.Name) and x.func.id == "isinstance" and len(x.args) == 2:
-            who, what = res.term(x.args[0]), res.term(x.args[1])
-            if who in (("field", "p1"), ("field", "p2")) and what in NDARRAY:
-                nd.append(k)
-                sides.add(who[1])
-    if len(leaves) > 10:
-        raise AnalysisError("_ValueGenerator.IsNumpy: too many leaf tests for a truth table")
     try:
-        tt = booleval.truth_table(fn.node, leaves, lambda x: (ast.unparse(x).replace(" ", "") if ast.unparse(x).replace(" ", "") in leaves and not isinstance(x, (ast.BoolOp, ast.UnaryOp)) else None))
+        leaves, tt = booleval.truth_table_auto(fn.node)
     except booleval.Unknown as e:
         raise AnalysisError("_ValueGenerator.IsNumpy is not a boolean combination of tests: %s" % e)
+    selfn = fn.params[0]
+    NDARRAY = ("numpy.ndarray", "ndarray", "np.ndarray")
+    res = Resolver(m, fn)
+    nd, sides = [], set()
+    for k in leaves:
+        try:
+            x = ast.parse(k, mode="eval").body
+        except SyntaxError:
+            continue
+        if isinstance(x, ast.Call) and isinstance(x.func, ast.Name) and x.func.id == "isinstance" and len(x.args) == 2:
+            who = ast.unparse(x.args[0])
+            what = x.args[1]
+            # (the class may be named through a local or a module alias: resolve plain names in the function)
+            wt = ast.unparse(what)
+            if isinstance(what, ast.Name):
+                for st in own_statements(fn.node):
+                    if isinstance(st, ast.Assign) and len(st.targets) == 1 and isinstance(st.targets[0], ast.Name) and st.targets[0].id == what.id:
+                        wt = ast.unparse(st.value)
+            if who in (selfn + ".p1", selfn + ".p2") and wt in NDARRAY:
+                nd.append(k)
+                sides.add(who[-2:])
     idx = [leaves.index(k) for k in nd]
     wrong = [vals for vals, got in tt.items() if got != any(vals[i_] for i_ in idx)]
     rep.check(sides == {"p1", "p2"} and not wrong, rid, "_ValueGenerator.IsNumpy:ndarray-operands-only", "IsNumpy() is true exactly when the left or the right operand is an ndarray",
